@@ -22,4 +22,10 @@ PROPS = {
         "need_tags": ["like/exh", "like/rnd", "like/corpus"],
         "trusted": ["the like statement is reached through the identity selector '.' (selector resolution of '.' is covered by C12)"],
     },
+    "C12": {
+        "engines": ["selector"],
+        "rule": "selector texts built from a 20-segment alphabet (fields, explicit fields, +/- indexes, iterators, slices, each optional or not): exhaustive <=2 segments x 40 IPLD values of every kind, 3 segments x a sub-pool; every slice/index bound in {absent, MinInt53, -6..6, MaxInt53}^2 on lists, strings (multi-byte characters) and bytes of length 0..4; seeded random selectors of up to 6 segments; the parsed segments are read back through the public accessors and sent to the model with the value",
+        "need_tags": ["sel/exh1", "sel/exh2", "sel/exh3", "sel/slice", "sel/index", "sel/rnd", "sel/ident"],
+        "trusted": ["strings are sliced by code point; the model groups a lead byte with its continuation bytes, exact on valid UTF-8 only", "basicnode map lookup = first entry with that key (decoders reject duplicate keys)"],
+    },
 }
